@@ -398,6 +398,10 @@ static void one_solve(sc_scn_t *sc, vnacal_t *vcp, const noise_t *nz,
 		    nz->n, nz->nf, nz->have_tr ? nz->tr : NULL));
 	if (r->mset == 0 && mode == 2)
 	    r->mset = LIB(vnacal_new_set_m_error(vnp, NULL, 1, NULL, NULL));
+	/* the default significance is 0.001; say so explicitly half the time */
+	if (r->mset == 0 && mode == 1 && (noise_seed & 1) &&
+		LIB(vnacal_new_set_pvalue_limit(vnp, 0.001)) != 0)
+	    r->mset = 7;
 	if (vt_cb.n_nonwarn != 0 && r->mset == 0)
 	    r->mset = 8;		/* succeeded yet reported an error */
     }
@@ -453,19 +457,25 @@ static void run_case(const char *table, uint64_t seed, int row)
     nseed = vt_u64(&rng);
     if (strcmp(c.kind, "iacc") == 0 || strcmp(c.kind, "irej") == 0)
 	nf = 1;
-    else if (strcmp(c.kind, "exact") == 0)
+    else if (strcmp(c.kind, "exact") == 0 || strcmp(c.kind, "det") == 0)
 	nf = 1 + vt_below(&rng, 3);
     else
 	nf = 1 + vt_below(&rng, 2);
     sc_init(&sc, (ets_type_t)type, c.r, c.c, nf, &rng, 0.5);
     known_set(&sc, &rng);
+    /* exact kinds: one third of the scenarios hand over a and b instead
+     * of m (noise is declared on m = b / a, so the noisy kinds use m) */
+    if ((strcmp(c.kind, "exact") == 0 || strcmp(c.kind, "det") == 0) &&
+	    vt_below(&rng, 3) == 0)
+	sc.ab = 1;
     for (int si = 0; si < sc.nstd; ++si)
 	sc.std[si].scale = 1.0;
     make_noise(&sc, &c, &rng, &nz, true_nf, true_tr);
     vt_put("{\"e\":\"Cfg\",\"id\":%d,\"ty\":\"%s\",\"r\":%d,\"c\":%d,"
 	    "\"sn\":%d,\"st\":%d,\"grid\":\"%s\",\"kind\":\"%s\","
-	    "\"vec\":\"%s\",\"nf\":%d,\"pts\":%d,\"nstd\":%d}", c.id, c.type,
-	    c.r, c.c, c.sn, c.st, c.grid, c.kind, c.vec, nf, nz.n, sc.nstd);
+	    "\"vec\":\"%s\",\"nf\":%d,\"pts\":%d,\"nstd\":%d,\"fm\":\"%s\"}",
+	    c.id, c.type, c.r, c.c, c.sn, c.st, c.grid, c.kind, c.vec, nf, nz.n,
+	    sc.nstd, sc.ab ? "ab" : "m");
     vt_end_line();
 
     memset(&ref, 0, sizeof(ref));
@@ -485,7 +495,9 @@ static void run_case(const char *table, uint64_t seed, int row)
 	/* two standards only: too few for every type */
 	sc.nstd = 2;
 	one_solve(&sc, vcp, &nz, 1, nseed, NULL, &w);
-    } else if (strcmp(c.kind, "exact") == 0) {
+    } else if (strcmp(c.kind, "exact") == 0 || strcmp(c.kind, "det") == 0) {
+	if (strcmp(c.kind, "det") == 0)
+	    sc.nstd = 3;		/* short, open, match: exactly determined */
 	/* exact data in all three runs */
 	one_solve(&sc, vcp, &nz, 0, nseed, "ref", &ref);
 	one_solve(&sc, vcp, &nz, 1, nseed, "w", &w);
